@@ -4,7 +4,8 @@ bytes per iteration (or exactly the slice handed to a safe extend_from_slice), i
 that same count, and advance both cursors by that same count."""
 from .base import Result, RuleError
 from .facts import callee
-from .flow import ExprBuilder, canon, walk, fmt_expr
+from .flow import ExprBuilder, canon, walk, fmt_expr, cfg_of, edge_conditions
+from .logic import const_of
 from .logic import is_call
 
 TARGETS = [
@@ -89,5 +90,59 @@ def run(facts):
             res.bad(key, b.loc(), "; ".join(probs))
         else:
             res.ok(key, b.loc(), "count = %s; %d cursor/index uses of the same count" % ("min(real lengths)" if mode != "extend" else "len of the appended slice", len(counts) or 1), nontrivial=True)
+        loop_exits(res, facts, b, ident)
     res.floor("copy_loops", n, 6)
     return res
+
+
+def _cursor(e, b):
+    """a parameter of the function, or the loop-carried variable a parameter is stored in"""
+    e = canon(e)
+    while isinstance(e, tuple) and e and e[0] in ("ref", "deref"):
+        e = e[1]
+    if isinstance(e, tuple) and e and e[0] == "param":
+        return True
+    return isinstance(e, tuple) and e and e[0] == "phi" and isinstance(e[1], tuple) and isinstance(e[1][0], int) and 1 <= e[1][0] <= b.arg_count
+
+
+def loop_exits(res, facts, b, ident):
+    """the copy loop ends only when the work is done: every normal (non-panicking) edge out of the loop carries
+    `is_empty(cursor)`, `!cursor.has_remaining()` or `!(count > 0)` on one of the function's own cursors"""
+    cfg = cfg_of(b)
+    loop = {i for i in range(cfg.n) if not cfg.cleanup(i) and cfg.reaches(i, i)}
+    key = ident + "|loop ends only when everything is moved"
+    if not loop:
+        res.bad(key, b.loc(), "no copy loop found")
+        return
+    exits, probs = 0, []
+    conds = {(s, d): (c, v) for (s, d, c, v) in edge_conditions(b, facts)}
+    for s in sorted(loop):
+        for d in cfg.succ[s]:
+            if d in loop or cfg.cleanup(d) or cfg.diverges(d):
+                continue
+            exits += 1
+            cv = conds.get((s, d))
+            if cv is None:
+                probs.append("unconditional exit bb%d->bb%d" % (s, d))
+                continue
+            c, v = canon(cv[0]), cv[1]
+            ok = False
+            if v[0] == "eq":
+                if is_call(c, "is_empty") and v[1] == 1 and _cursor(c[2][0], b):
+                    ok = True
+                elif isinstance(c, tuple) and c[0] in ("call", "ucall") and c[1].endswith("::has_remaining") and v[1] == 0 and _cursor(c[2][0], b):
+                    ok = True
+                elif isinstance(c, tuple) and c[0] == "bin" and const_of(c[3]) == 0 and _cursor(c[2], b) and ((c[1] in ("Gt", "Ne") and v[1] == 0) or (c[1] == "Eq" and v[1] == 1)):
+                    ok = True
+                elif isinstance(c, tuple) and c[0] == "bin" and c[1] in ("Eq",) and is_call(c[2], "len") and const_of(c[3]) == 0 and v[1] == 1 and _cursor(c[2][2][0], b):
+                    ok = True
+            elif v[0] == "eqint" and v[1] == 0 and (_cursor(c, b) or (is_call(c, "len") and _cursor(c[2][0], b)) or (isinstance(c, tuple) and c[0] in ("call", "ucall") and c[1].endswith("::remaining") and _cursor(c[2][0], b))):
+                ok = True
+            if not ok:
+                probs.append("the loop can end on `%s` %s, which is not exhaustion of the source/destination" % (fmt_expr(c)[:70], v))
+    if exits == 0:
+        probs.append("the loop has no normal exit")
+    if probs:
+        res.bad(key, b.loc(), "; ".join(probs))
+    else:
+        res.ok(key, b.loc(), "%d exit edge(s), each on exhaustion of a cursor" % exits, nontrivial=True)
